@@ -25,6 +25,9 @@ GROUPS = {
         # aggregate_power: <voltages . rates> / 1000   (the dot product is hand-modelled)
         dict(name="An_power_scale", file=ANA, qual="aggregate_power", only_used_args=True, expr_path="body[1].value",
              call_params={"sim.network._voltages.T.dot": ("dot", "num")}),
+        # constraint_currents: the test deciding whether np.abs is applied (`not return_magnitudes`)
+        dict(name="An_abs_applied", file=ANA, qual="constraint_currents", only_used_args=True, expr_path="body[3].test",
+             types={"return_magnitudes": "bool"}),
         # proportion_of_energy_delivered: total_delivered / total_requested
         dict(name="An_proportion", file=ANA, qual="proportion_of_energy_delivered", only_used_args=True, expr_path="body[3].value",
              types={"total_delivered": "num", "total_requested": "num"}),
